@@ -16,6 +16,14 @@ var textUnmarshaler = reflect.TypeOf((*encoding.TextUnmarshaler)(nil)).Elem()
 // Pointerify takes a type and returns another type with all its members
 // set to pointers of their respective types
 func Pointerify(original reflect.Type, tmpl reflect.Value) reflect.Type {
+	return pointerify(original, tmpl, map[uintptr]struct{}{})
+}
+
+// pointerify is Pointerify with the set of template pointers that are being
+// expanded: interface-typed fields are narrowed to the concrete type of the
+// template's value, which follows the template's pointers and would never
+// end on a template whose values form a cycle.
+func pointerify(original reflect.Type, tmpl reflect.Value, expanding map[uintptr]struct{}) reflect.Type {
 	newFields := make([]reflect.StructField, 0, original.NumField())
 
 	for i := 0; i < original.NumField(); i++ {
@@ -29,7 +37,7 @@ func Pointerify(original reflect.Type, tmpl reflect.Value) reflect.Type {
 			continue
 		}
 
-		sf := pointerifyField(originalField, tmplFieldVal)
+		sf := pointerifyField(originalField, tmplFieldVal, expanding)
 		if sf != nil {
 			newFields = append(newFields, *sf)
 		}
@@ -58,7 +66,7 @@ func OmitField(sf reflect.StructField) bool {
 
 }
 
-func pointerifyField(originalField reflect.StructField, tmplFieldVal reflect.Value) *reflect.StructField {
+func pointerifyField(originalField reflect.StructField, tmplFieldVal reflect.Value, expanding map[uintptr]struct{}) *reflect.StructField {
 	ft := originalField.Type
 	sf := reflect.StructField{
 		Name:      originalField.Name,
@@ -98,9 +106,19 @@ func pointerifyField(originalField reflect.StructField, tmplFieldVal reflect.Val
 			// interface that Sources know about.
 			return &originalField
 		case reflect.Ptr, reflect.Struct:
+			if impl.Kind() == reflect.Ptr {
+				if _, cyclic := expanding[impl.Pointer()]; cyclic {
+					// the template value refers back to a pointer
+					// we are in the middle of expanding: keep
+					// the interface type here.
+					return &originalField
+				}
+				expanding[impl.Pointer()] = struct{}{}
+				defer delete(expanding, impl.Pointer())
+			}
 			newSF := originalField
 			newSF.Type = impl.Type()
-			return pointerifyField(newSF, impl)
+			return pointerifyField(newSF, impl, expanding)
 		}
 		return &originalField
 	case reflect.Ptr:
@@ -131,7 +149,7 @@ func pointerifyField(originalField reflect.StructField, tmplFieldVal reflect.Val
 		}
 		// It's a struct without an UnmarshalText method, we
 		// need to recursively pointerify the component fields.
-		pointeredStruct := Pointerify(ft, tmplFieldVal)
+		pointeredStruct := pointerify(ft, tmplFieldVal, expanding)
 		return &reflect.StructField{
 			Name:      originalField.Name,
 			Type:      reflect.PtrTo(pointeredStruct),
